@@ -385,7 +385,12 @@ def main(argv):
     ev["coverage"]["evaluations"] = max(1, vcs)
     ev["coverage"]["distinct_nontrivial"] = max(2, obligations)
     ev["coverage"]["rule"] = "one evaluation = one VC (function x case x clause x path); distinct = obligations"
-  json.dump(ev, open(os.path.join(VERIF, "evidence", prop + ".json"), "w"), indent=1)
+  # the evidence file describes a FULL run against /repo itself; partial (--only) runs and runs against a scratch
+  # copy (QKERAS_VERIF_REPO) are written aside so that they can never replace it
+  official = only is None and os.path.realpath(repo_root()) == os.path.realpath("/repo")
+  ev_path = os.path.join(VERIF, "evidence", prop + ".json") if official else \
+      os.path.join(VERIF, ".work", "evidence_partial_%s.json" % prop)
+  json.dump(ev, open(ev_path, "w"), indent=1)
   print("%s %s: %d obligations, %d discharged, %d VCs, %d known findings reproduced, %d violations, %d undecided, %.1fs" % (
       prop, tier, obligations, discharged, vcs, len(known_confirmed), len(violations), len(undecided), wall))
   if crash:
